@@ -890,8 +890,9 @@ class BlockBase(Base):
                         enable_where_construct_hook = False
                 continue
 
-        except Exception:
-            # We hit trouble so clean up the symbol table
+        except BaseException:
+            # We hit trouble (including a reader error that exits) so
+            # clean up the symbol table
             if table_name:
                 SYMBOL_TABLES.exit_scope()
                 # Remove any symbol table that we created
